@@ -1,5 +1,6 @@
-"""C11 Tier 1 tie (P): the program captured from the real solve_<p> must be, node for node and in
-posting order, the program of the Coq model solve_<p>_model (plug-in attribute TIER1 = (CoqModule, function),
+"""C11 Tier 1 tie (P): the program captured from the real solve_<p> must be, node for node, the program of
+the Coq model solve_<p>_model - declarations and answer keys exactly, constraints as a multiset (the
+theorems speak about `satisfies` = conjunction of all constraints, which does not depend on their order) (plug-in attribute TIER1 = (CoqModule, function),
 generator tier1_problems(tier, rng))."""
 import random
 
@@ -8,6 +9,12 @@ import vlib
 
 ERR = {1: "IndexError", 2: "KeyError", 3: "AssertionError", 4: "TypeError", 5: "ValueError",
        6: "RecursionError", 7: "NotImplementedError", 8: "Other"}
+
+
+def _norm(st):
+    import graphcap
+    head, cons = graphcap.norm_state(st)
+    return head + " C " + " ".join(cons)
 
 
 def correspond(ctx):
@@ -23,7 +30,7 @@ def correspond(ctx):
             tok = L.pb_tokens(p.encode(pb))
             rep = m.call("M %s %s" % (p.NAME, tok))
             if rep.startswith("OK "):
-                mo = ("ok", rep[3:])
+                mo = ("ok", _norm(rep[3:]))
             elif rep.startswith("E "):
                 mo = ("err", ERR[int(rep.split()[1])])
             else:
@@ -34,5 +41,5 @@ def correspond(ctx):
             elif len(insts) != 1:
                 io = ("harness", "%d solvers" % len(insts))
             else:
-                io = ("ok", exprio.show_state(insts[0]))
+                io = ("ok", _norm(exprio.show_state(insts[0])))
             ctx.corr("program:" + p.NAME, tok, mo, io)
